@@ -208,3 +208,163 @@ for _pat in ("n1n", "1nn", "nn1", "n11", "1n", "n1", "nnn"):
     for _ttm in (False, True):
         scn(name=f"TT.reduce_dims:{_pat},{'ttm' if _ttm else 'tt'}", func="_tt_base.TT.reduce_dims", props=("C05",), args=None,
             driver=_drv_reduce(_pat, _ttm), check=_chk, min_returns=1)
+
+
+# --------------------------------------------------------------------------- to_qtt on trains with concrete power-of-two modes (C10)
+# The whole method is evaluated (the constructor and to_tt included, SVD by its shape laws): the result has to be a train whose every mode
+# is `mode_size`, with as many modes as the input has bits, cores chaining, and built from the input's cores.
+
+def _drv_to_qtt(sizes, ms):
+    def drv(it, model):
+        modes = [P.const(n) for n in sizes]
+        obj = _new_obj(it, model, _cores(it, len(sizes), False, modes=modes))
+        res = it.call_function(model.functions[TTQ + ".to_qtt"], [], {"mode_size": VInt(P.const(ms))}, recv=obj)
+        return VTuple((res, VObj("_state", {"sizes": VList([VInt(m) for m in modes]), "ms": VInt(P.const(ms))})))
+    return drv
+
+
+def _chk_to_qtt(out):
+    import math
+    v = out.value
+    if not (isinstance(v, VTuple) and len(v.items) == 2 and isinstance(v.items[1], VObj)):
+        return [("result", False, "the call could not be evaluated")]
+    res, st = v.items[0], v.items[1].attrs
+    sizes = [int(x.p.const_value()) for x in st["sizes"].items]
+    ms = int(st["ms"].p.const_value())
+    cores = None
+    if isinstance(res, VTT):
+        cores = res.cores if isinstance(getattr(res, "cores", None), VList) else None
+    elif isinstance(res, VObj):
+        cores = _attr(res, "cores")
+    if not (isinstance(cores, VList) and all(isinstance(c, VTensor) for c in cores.items)):
+        return [("result", False, f"to_qtt does not return a train with a concrete core list ({type(res).__name__})")]
+    bits = 0
+    for n in sizes:
+        k = 0
+        while ms ** (k + 1) <= n:
+            k += 1
+        bits += max(k, 1) if n != 1 else 1
+    shp = [c.block().shape() for c in cores.items]
+    eq = lambda a, b: out.facts.norm(a) == out.facts.norm(b)
+    out_res = []
+    okm = all(len(s) == 3 and eq(s[1], P.const(ms)) for s in shp)
+    out_res.append(("modes", okm, f"every mode of the result is {ms}" if okm else
+                    f"the result has modes {[repr(out.facts.norm(s[1])) if len(s) == 3 else '?' for s in shp]} for input modes {sizes}: not every mode is {ms}"))
+    okn = len(shp) == bits
+    out_res.append(("count", okn, f"{bits} modes for input modes {sizes}" if okn else f"the result has {len(shp)} modes where input modes {sizes} have {bits} digits in base {ms}"))
+    okc = bool(shp) and eq(shp[0][0], ONE) and eq(shp[-1][-1], ONE) and all(eq(shp[j][-1], shp[j + 1][0]) for j in range(len(shp) - 1))
+    out_res.append(("chain", okc, "the cores chain, boundary ranks 1" if okc else "neighbouring cores of the result do not provably agree on their bond"))
+    txt = " ".join(c.dense().canon() for c in cores.items)
+    oku = all(f"c{j}" in txt for j in range(len(sizes)))
+    out_res.append(("cores-used", oku, "every input core enters the result" if oku else "an input core does not enter the result: the value cannot be the reshaped input"))
+    return out_res
+
+
+from .stepfn import factor_hooks as _factor_hooks
+
+for _sizes, _ms in (((4,), 2), ((8,), 2), ((2, 4), 2), ((4, 8, 2), 2), ((16, 2), 2), ((2, 2), 2), ((9, 3), 3)):
+    scn(name=f"to_qtt:N={list(_sizes)},mode_size={_ms}", func="_tt_base.TT.to_qtt", props=("C10",), args=None,
+        driver=_drv_to_qtt(_sizes, _ms), check=_chk_to_qtt, hooks=_factor_hooks(), min_returns=1)
+
+
+# --------------------------------------------------------------------------- reshape on trains with concrete modes (C10)
+# The real merge / split loop is walked for fixed factorisations: every path that returns must produce exactly the requested modes, cores
+# that chain, and use every input core (a dropped core loses its factor - a sign / phase when it only carried a singleton mode).
+
+def _drv_reshape(sizes, target, ttm=False):
+    def drv(it, model):
+        modes = [P.const(n) for n in sizes]
+        obj = _new_obj(it, model, _cores(it, len(sizes), ttm, modes=modes) if not ttm else
+                       [VTensor(net.atom_tensor(it.sp, f"c{j}", [ONE if j == 0 else _sz(f"r{j}"), P.const(n), P.const(n), ONE if j == len(sizes) - 1 else _sz(f"r{j + 1}")]), "dtype:x")
+                        for j, n in enumerate(sizes)])
+        for j in range(len(sizes) + 1):
+            it.facts.lb[f"r{j}"] = 1
+        shp = VList([VTuple((VInt(P.const(a)), VInt(P.const(a)))) if ttm else VInt(P.const(a)) for a in target])
+        it.sp.allow_regroup = True       # torchtt.reshape implements the dense reshape: re-grouping across modes is its purpose
+        res = it.call_function(model.func("_extras.reshape"), [obj, shp], {})
+        return VTuple((res, VObj("_state", {"n": VInt(P.const(len(sizes))), "target": VList([VInt(P.const(a)) for a in target]), "ttm": VBool(ttm)})))
+    return drv
+
+
+def _chk_reshape(out):
+    v = out.value
+    if not (isinstance(v, VTuple) and len(v.items) == 2 and isinstance(v.items[1], VObj)):
+        return [("result", False, "the call could not be evaluated")]
+    res, st = v.items[0], v.items[1].attrs
+    target = [int(x.p.const_value()) for x in st["target"].items]
+    ttm = st["ttm"].v
+    n = int(st["n"].p.const_value())
+    cores = getattr(res, "cores", None) if isinstance(res, VTT) else (_attr(res, "cores") if isinstance(res, VObj) else None)
+    if not (isinstance(cores, VList) and all(isinstance(c, VTensor) for c in cores.items)):
+        return [("result", False, f"reshape does not return a train with a concrete core list ({type(res).__name__})")]
+    shp = [c.block().shape() for c in cores.items]
+    eq = lambda a, b: out.facts.norm(a) == out.facts.norm(b)
+    nax = 4 if ttm else 3
+    got = [[repr(out.facts.norm(x)) for x in s[1:-1]] for s in shp]
+    okm = len(shp) == len(target) and all(len(s) == nax and all(eq(x, P.const(t)) for x in s[1:-1]) for s, t in zip(shp, target))
+    res_l = [("modes", okm, f"the result has the requested modes {target}" if okm else f"the result has modes {got} where {target} were requested")]
+    okc = bool(shp) and eq(shp[0][0], ONE) and eq(shp[-1][-1], ONE) and all(eq(shp[j][-1], shp[j + 1][0]) for j in range(len(shp) - 1))
+    res_l.append(("chain", okc, "the cores chain, boundary ranks 1" if okc else "neighbouring cores of the result do not provably agree on their bond"))
+    txt = " ".join(c.dense().canon() for c in cores.items)
+    missing = [j for j in range(n) if f"c{j}" not in txt]
+    res_l.append(("cores-used", not missing, "every input core enters the result" if not missing else
+                  f"input core(s) {missing} do not enter the result: their factor (for a singleton mode: a sign or phase) is lost"))
+    return res_l
+
+
+for _src, _tgt in (((4, 3), (2, 6)), ((2, 6), (4, 3)), ((6,), (2, 3)), ((2, 3), (6,)), ((4, 3, 1), (12,)), ((6,), (2, 3, 1, 1)), ((2, 3), (1, 2, 3)),
+                   ((12,), (2, 1, 3, 2)), ((2, 1, 3), (6,)), ((2, 2, 2), (4, 2)), ((1, 6), (3, 2)), ((6, 1, 1), (2, 3)),
+                   ((6, 2), (4, 3)), ((3, 4), (2, 6)), ((2, 3, 4), (4, 6)), ((8,), (2, 2, 2)), ((3, 1, 2), (1, 6, 1))):
+    scn(name=f"reshape:{list(_src)}->{list(_tgt)}", func="_extras.reshape", props=("C10",), args=None,
+        driver=_drv_reshape(_src, _tgt), check=_chk_reshape, hooks=_factor_hooks(), min_returns=1)
+for _src, _tgt in (((4, 3), (2, 6)), ((6,), (2, 3)), ((2, 3, 1), (6,)), ((6,), (3, 2, 1)), ((6, 2), (4, 3)), ((2, 6), (4, 3))):
+    scn(name=f"reshape.ttm:{list(_src)}->{list(_tgt)}", func="_extras.reshape", props=("C10",), args=None,
+        driver=_drv_reshape(_src, _tgt, True), check=_chk_reshape, hooks=_factor_hooks(), min_returns=1)
+
+
+# --------------------------------------------------------------------------- qtt_to_tens: QTT cores folded back into the original modes (C10)
+
+def _drv_qtt_back(sizes, target):
+    def drv(it, model):
+        modes = [P.const(n) for n in sizes]
+        obj = _new_obj(it, model, _cores(it, len(sizes), False, modes=modes))
+        res = it.call_function(model.functions[TTQ + ".qtt_to_tens"], [VList([VInt(P.const(a)) for a in target])], {}, recv=obj)
+        return VTuple((res, VObj("_state", {"n": VInt(P.const(len(sizes))), "target": VList([VInt(P.const(a)) for a in target]), "ttm": VBool(False)})))
+    return drv
+
+
+for _src, _tgt in (((2, 2, 2, 2, 2), (4, 8)), ((2, 2), (4,)), ((2, 2, 2), (2, 4)), ((2, 2), (2, 2)), ((3, 3, 3), (9, 3)), ((2, 2, 2, 2), (16,))):
+    scn(name=f"qtt_to_tens:{list(_src)}->{list(_tgt)}", func="_tt_base.TT.qtt_to_tens", props=("C10",), args=None,
+        driver=_drv_qtt_back(_src, _tgt), check=_chk_reshape, min_returns=1)
+for _src, _tgt in (((2, 2, 2), (4, 4)), ((2, 2, 2), (4,)), ((2, 2), (8,))):
+    scn(name=f"qtt_to_tens:{list(_src)}->{list(_tgt)} (no such folding)", func="_tt_base.TT.qtt_to_tens", props=("C10", "C18"), args=None,
+        driver=_drv_qtt_back(_src, _tgt), check=_chk_reshape, must_raise=True, any_exception=True, min_returns=0)
+
+
+# --------------------------------------------------------------------------- to_qtt of square operators (goes through reshape)
+
+def _drv_to_qtt_ttm(rows, cols, ms):
+    def drv(it, model):
+        cs = [VTensor(net.atom_tensor(it.sp, f"c{j}", [ONE if j == 0 else _sz(f"r{j}"), P.const(m), P.const(n), ONE if j == len(rows) - 1 else _sz(f"r{j + 1}")]), "dtype:x")
+              for j, (m, n) in enumerate(zip(rows, cols))]
+        for j in range(len(rows) + 1):
+            it.facts.lb[f"r{j}"] = 1
+        obj = _new_obj(it, model, cs)
+        it.sp.allow_regroup = True
+        res = it.call_function(model.functions[TTQ + ".to_qtt"], [], {"mode_size": VInt(P.const(ms))}, recv=obj)
+        bits = []
+        for n in cols:
+            k = 0
+            while ms ** (k + 1) <= n:
+                k += 1
+            bits += [ms] * k
+        return VTuple((res, VObj("_state", {"n": VInt(P.const(len(rows))), "target": VList([VInt(P.const(a)) for a in bits]), "ttm": VBool(True)})))
+    return drv
+
+
+for _rows, _cols in (((4,), (4,)), ((4, 2), (4, 2)), ((2, 8), (2, 8))):
+    scn(name=f"to_qtt.ttm:{list(_rows)}x{list(_cols)}", func="_tt_base.TT.to_qtt", props=("C10",), args=None,
+        driver=_drv_to_qtt_ttm(_rows, _cols, 2), check=_chk_reshape, hooks=_factor_hooks(), min_returns=1)
+for _rows, _cols in (((4,), (2,)), ((6,), (6,)), ((4, 2), (4, 4))):
+    scn(name=f"to_qtt.ttm:{list(_rows)}x{list(_cols)} (not a square power of the mode size)", func="_tt_base.TT.to_qtt", props=("C10", "C18"), args=None,
+        driver=_drv_to_qtt_ttm(_rows, _cols, 2), check=_chk_reshape, hooks=_factor_hooks(), must_raise=True, any_exception=True, min_returns=0)
